@@ -80,4 +80,28 @@ def run(chk):
     UC.run_family(chk, 'C03', [(['I3'], core3i if thorough else core3i[::2])], entries=('ext_dirty', 'ext'), check_unit=True)
     small = G.sample_small(chk.rng, 2400 if thorough else 240, sizes=(3, 4, 5), un=('not', 'EX', 'AX', 'EF', 'AG'), bins=('and', 'or', 'iff', 'EU'))
     UC.sweep(chk, 'C03', small, which=('C2', 'M2') if thorough else ('C2',), check_unit=True, label='small formulas on constrained instances', signature='outside-unit')
+    foreign_sets(chk, thorough)
+
+def foreign_sets(chk, thorough):
+    """wild-card sets and domains supplied by the caller that are NOT confined to the graph's unit set (computed on a model
+    variant with relaxed regulations, built from the symbolic context, loaded from an older bundle): results stay inside
+    the unit set and equal the semantics with the supplied sets cut down to the valid colours"""
+    P0, P1 = ('prop', 'v0'), ('prop', 'v1'); X = ('var', 'x')
+    R, Q = ('wild', 'r'), ('wild', 'rr')
+    raw = {'r': {'t': 'rawexpr', 'e': 'v0'}, 'rr': {'t': 'rawexpr', 'e': '!v0 | v1'}}
+    fs = [R, ('or', R, P1), ('and', R, Q), ('or', R, Q), ('xor', R, Q), ('EF', R), ('EX', R), ('EG', R), ('EU', R, Q), ('EW', Q, R), ('not', R), ('AX', R), ('imp', R, Q), ('iff', R, Q),
+          ('exists', 'x', None, ('jump', 'x', ('EX', R))), ('bind', 'x', None, ('and', R, ('EF', X))), ('exists', 'x', 'r', ('jump', 'x', P1)), ('bind', 'x', 'rr', ('EX', X)),
+          ('forall', 'x', 'r', ('or', ('EF', X), Q)), ('and', ('bind', 'x', 'r', ('EX', ('or', X, R))), R), ('or', ('exists', 'x', 'rr', ('and', X, R)), ('EF', R))]
+    for inst in UC.instances(['C2', 'M2']):
+        for e in ('ext_dirty', 'ext', 'ext_multi_dirty'):
+            for i in range(0, len(fs), 11):
+                chunk = fs[i:i + 11]
+                sess = UC.Session(inst, 1, [{'phis': [f], 'entry': e} for f in chunk], extra_ctx=raw)
+                for j, f in enumerate(chunk):
+                    b = sess.first(j)
+                    name = f'C03/E-UNI {inst.name} {e}: caller-supplied sets outside the unit set: {S.show(f)}'
+                    if b is None:
+                        chk.obligation(name, 'E-UNI', 'violated'); chk.violation(name, 'error-on-valid-input', {'instance': inst.name, 'formula': S.show(f), 'answer': sess.runs[j]}, f'{S.show(f)} answered {sess.runs[j]}'); continue
+                    UC.check_inside_unit(chk, 'C03', sess, f, b, name + ' [inside the unit set]', 'outside-unit', rdec=sess.dec_for(j))
+                    UC.check_equiv(chk, 'C03', sess, f, b, name + ' [== semantics on the valid colours]', 'semantics', rdec=sess.dec_for(j))
 
